@@ -120,7 +120,8 @@ def prun_one(sdir):
             return name, {"error": "patch does not apply: " + o[-300:]}
         sh(["rsync", "-a", "--exclude", "work", "--exclude", "replays", "--exclude", ".git", "--exclude", "seeded", VERIF + "/", vf + "/"])
         env = dict(os.environ, PROPHY_REPO=wt)
-        for cid in [pid] + ([] if os.environ.get("SEED_OWN_ONLY") else RELATED.get(pid, [])):
+        explicit = [c for c in os.environ.get("SEED_CHECKS", "").split(",") if c]
+        for cid in explicit or ([pid] + ([] if os.environ.get("SEED_OWN_ONLY") else RELATED.get(pid, []))):
             try:
                 rcc, oc = sh(["./check", cid, "--tier", "quick"], cwd=vf, env=env, timeout=3600)
             except subprocess.TimeoutExpired:
